@@ -16,7 +16,8 @@ RULE = ("mnemonic/passphrase strings assembled from Unicode building blocks for 
         "(precomposed vs combining, ligatures, Angstrom sign, full/half-width, squared units, Hangul syllables vs jamo, CJK "
         "compatibility ideographs, mis-ordered combining marks, U+3000, astral planes, NUL, lone surrogates, empty, >128-byte "
         "passphrases); seeds of every length 0..128; all five constructors x both networks; distinct = distinct (monitor, case) "
-        "digests; a string case is non-trivial when it is non-ASCII or exercises a length class")
+        "digests; a string case is non-trivial when it is non-ASCII or exercises a length class"
+        " EXTENSIONS: + boundary-shift twins (same concatenated text cut elsewhere), wrapped text (quotes, brackets, newline, BOM), text-like seed bytes, masters with telling end bytes found by search")
 LEVEL_TEXT = ("Each call of bip39_seed_from_mnemonic / master_key / the five wallet constructors is compared with an own PBKDF2 "
               "(RFC 8018 written out over SHA-512) over NFKD text and an own HMAC split; cross-constructor and cross-network "
               "agreement of master key material is checked on the same secrets. Held on K executions over Unicode classes.")
@@ -36,7 +37,17 @@ BLOCKS = [
 JAPANESE = ("こうちょう", "けちゃっぷ", "がんばる", "ぱそこん")
 
 
+WRAPPERS = [('"', '"'), ("'", "'"), ("`", "`"), ("(", ")"), ("[", "]"), ("{", "}"), ("<", ">"), ("\u201c", "\u201d"), ("\u00ab", "\u00bb"), (" ", " "),
+            ("\t", "\n"), ("\n", ""), ("", "\n"), ("", "\r\n"), ("\ufeff", ""), ("\\", "\\"), ("#", ""), ("", "\x00"), ('""', '""'), ("b'", "'"), ("0x", "")]
+
+
 def gen_text(rnd, kind):
+    if rnd.random() < 0.12:
+        # text that comes WRAPPED (quotes pasted along from a JSON file, brackets, a trailing newline from a file, a BOM ...): it
+        # is part of the text; "tolerating" it changes the wallet
+        tag, inner = gen_text(rnd, kind)
+        a, b = rnd.choice(WRAPPERS)
+        return kind[0] + ":wrapped", a + (inner or "word") + b
     r = rnd.random()
     if kind == "mnemonic" and r < 0.25:
         ent = gen.rbytes(rnd, rnd.choice([16, 20, 24, 28, 32]))
